@@ -38,6 +38,12 @@ type Env struct {
 // World is the simulated machine: disk plus environment plus the running
 // process.
 type World struct {
+	// FifoRoot, if set, is a directory of named pipes: FifoRoot/x delivers
+	// the content that FifoSrc/x has when the pipe is opened, once per
+	// process, in short reads - what `gts cmd <(cat x)` or a mkfifo'd path
+	// gives. Nothing can be created there and a pipe cannot seek.
+	FifoRoot string
+	FifoSrc  string
 	Files    map[string]*Inode
 	Dirs     map[string]bool
 	ReadOnly map[string]bool // directories in which nothing can be created
